@@ -73,7 +73,9 @@ pub fn build_base(path: &str, pagesize: u64, commits_code: usize) -> Result<Base
     // 5000 + n: the last commit writes leaves that end exactly at the end of their page run
     // 6000 + n: after the n commits, a commit whose final sync fails (its header is in the file), a
     // writer that is abandoned, and one more commit
-    let tail_kind = if commits_code >= 6000 { 4 } else if commits_code >= 5000 { 3 } else if commits_code >= 4000 { 2 } else if commits_code >= 3000 { 1 } else { 0 };
+    // 7000 + n: after the n commits, a bucket of 400 entries is committed and deleted (a free list of
+    // several pages), then two small commits
+    let tail_kind = if commits_code >= 7000 { 5 } else if commits_code >= 6000 { 4 } else if commits_code >= 5000 { 3 } else if commits_code >= 4000 { 2 } else if commits_code >= 3000 { 1 } else { 0 };
     let commits = commits_code % 1000;
     for i in 1..=commits {
         let v = r.step(&Action::Tx { ops: commit_ops(i), commit: true }, &Oracles::NONE);
@@ -98,7 +100,19 @@ pub fn build_base(path: &str, pagesize: u64, commits_code: usize) -> Result<Base
         }
         states.push(r.model.clone());
     }
-    if tail_kind == 4 {
+    if tail_kind == 5 {
+        let mut mk = vec![OpSpec::bucket("create", &[], "wide")];
+        for i in 0..400 {
+            mk.push(OpSpec::put(&["wide"], &format!("w{:04}", i), "w*300"));
+        }
+        for (what, ops) in [("fill", mk), ("delete", vec![OpSpec::bucket("delb", &[], "wide")]), ("small 1", commit_ops(commits + 1)), ("small 2", commit_ops(commits + 2))] {
+            let v = r.step(&Action::Tx { ops, commit: true }, &Oracles::NONE);
+            if !v.is_empty() || r.poisoned {
+                return Err(format!("base construction failed at the {} commit of the long-free-list tail: {:?}", what, v));
+            }
+            states.push(r.model.clone());
+        }
+    } else if tail_kind == 4 {
         let v = r.step(&Action::TxFail { ops: commit_ops(commits + 1), call: 1001 }, &Oracles::NONE);
         if !v.is_empty() || r.poisoned {
             return Err(format!("base construction failed at the commit whose final sync fails: {:?}", v));
@@ -416,6 +430,7 @@ pub fn run(check: &mut Check) {
         codes.push(5002);
         codes.push(6002);
         codes.push(6003);
+        codes.push(7002);
         if tier == Tier::Thorough {
             codes.push(1005);
             codes.push(2004);
